@@ -14,7 +14,7 @@ Pipeline per property:
   5 verdict, evidence/<id>.json, replay file on violation
 Exit 0 = property held on everything explored; exit 1 + "VIOLATION property=<id> replay=<path>".
 """
-import sys, os, json, subprocess, time, hashlib, re, fcntl, random, shutil
+import sys, os, json, subprocess, time, hashlib, re, fcntl, random, shutil, concurrent.futures
 
 HERE = os.path.dirname(os.path.abspath(__file__))
 VERIF = os.path.dirname(HERE)
@@ -714,6 +714,24 @@ def main():
     if forbidden:
         for t in obligations:
             undischarged.setdefault(t, ['forbidden construct in sources: ' + forbidden[0]])
+    # thorough tier: the compiled modules are replayed by leanchecker, the toolchain's independent re-checker of .olean
+    # files (one module per call); a module it rejects discharges nothing
+    rechecked = {}
+    if tier == 'thorough' and not replay:
+        def _lc(m):
+            try:
+                r = subprocess.run(['lake', 'env', 'leanchecker', m], cwd=os.path.join(VERIF, 'lean'), stdout=subprocess.PIPE,
+                                   stderr=subprocess.STDOUT, timeout=1800, text=True)
+                return m, r.returncode, r.stdout[-300:]
+            except subprocess.TimeoutExpired:
+                return m, 124, 'timeout'
+        with concurrent.futures.ThreadPoolExecutor(4) as ex:
+            for m, rc_, out_ in ex.map(_lc, built_mods):
+                rechecked[m] = rc_
+                if rc_ != 0:
+                    for t in obligations:
+                        if t.startswith(m + '.') or (m == 'Pbc.Refine.Leaves' and t.startswith(R)):
+                            undischarged.setdefault(t, ['leanchecker rejects module %s: %s' % (m, out_)])
     discharged = [t for t in obligations if t not in undischarged]
 
     # ---- 3/4. correspondence + direct oracle --------------------------------------------------
@@ -979,6 +997,7 @@ def main():
         'coverage': {
             'obligations': len(obligations), 'discharged': len(discharged),
             'checker_cmd': 'cd /verif/lean && lake build %s && lake env lean <#print axioms on each obligation>' % ' '.join(P['modules'] + (['Pbc.Refine.Leaves'] if P['refine'] else [])),
+            'leanchecker': rechecked,
             'trusted_base': ['Lean 4.33.0 kernel', 'axioms: propext, Quot.sound, Classical.choice',
                              'bv_decide native axioms (Refine theorems only): %d distinct' % len(set(native_axioms)),
                              'tools/c2lean.py (C->Lean translation of leaf functions via clang-14 AST)',
